@@ -278,6 +278,33 @@ func c17subParse(body []byte, tn TableName, cols []string, isStats bool) *c17sub
 	return obs
 }
 
+// c17subCustomVarSort makes a custom variable the leading sort key of some hosts / services data requests
+// (the variable name is an argument of the Sort header which has to travel with it).
+func c17subCustomVarSort(r *vRand, lines []string, meta *vMeta) []string {
+	if !r.chance(1, 5) || (lines[0] != "GET hosts" && lines[0] != "GET services") {
+		return lines
+	}
+	at := len(lines)
+	for i, l := range lines {
+		switch {
+		case strings.HasPrefix(l, "Stats"), l == "Sort: name asc", l == "Sort: host_name asc":
+			return lines // Stats request or the table's default order
+		case strings.HasPrefix(l, "Sort:") && i < at:
+			at = i
+		}
+	}
+	col := "custom_variables"
+	if lines[0] == "GET services" && r.chance(1, 2) {
+		col = "host_custom_variables"
+	}
+	key := fmt.Sprintf("Sort: %s %s %s", col, vPick(r, qeCVNames), vPick(r, []string{"asc", "desc"}))
+	meta.count("sort:leading-custom-variable")
+	res := append([]string{}, lines[:at]...)
+	res = append(res, key)
+
+	return append(res, lines[at:]...)
+}
+
 func c17subMain(args []string) int {
 	flags := verifParseStreamFlags("c17sub", args)
 	meta := newVMeta("c17sub", c17subRule)
@@ -293,11 +320,16 @@ func c17subMain(args []string) int {
 		rnd := newVRand(flags.seed)
 		for len(inputs) < flags.n {
 			ds := qeGenDataset(rnd.fork(), 3, 8)
+			if len(ds.Backends) < 2 {
+				// mostly several backends: the partner node has to merge them before it cuts its part
+				ds = qeGenDataset(rnd.fork(), 3, 8)
+			}
 			gen := &qeGen{r: rnd.fork(), ds: ds, pFilter: 85, pStats: 35, pSort: 55, pLimit: 45, pAuth: 15, pBackends: 0, pWrapped: 30,
-				pGrouped: 25, pIndexLeaf: 10, maxDepth: 3, pCutoff: 12, tables: qeAllTables, hist: meta.Histogram}
+				pGrouped: 25, pIndexLeaf: 10, maxDepth: 3, pCutoff: 25, tables: qeAllTables, hist: meta.Histogram}
 			svcStrict, grpStrict := rnd.chance(1, 4), rnd.chance(3, 4)
+			extra := rnd.fork()
 			for q := 0; q < 10 && len(inputs) < flags.n; q++ {
-				lines := strings.Split(strings.TrimRight(gen.request(), "\n"), "\n")
+				lines := c17subCustomVarSort(extra, strings.Split(strings.TrimRight(gen.request(), "\n"), "\n"), meta)
 				inputs = append(inputs, &qeInput{DS: ds, Lines: lines, Optimize: false, SvcStrict: svcStrict, GrpStrict: grpStrict},
 					&qeInput{DS: ds, Lines: lines, Optimize: true, SvcStrict: svcStrict, GrpStrict: grpStrict})
 			}
